@@ -256,7 +256,7 @@ def thread_stress(n_threads=8, rounds=60):
     for k in range(6):
         pdvs = [{'id': 1 + 2 * j, 'data': patterned(3000 + 500 * k + j, k + j)} for j in range(4)]
         ops.append(('pdu', op_pdu, ({'t': 4, 'r': 0, 'pdvs': pdvs},)))
-        ops.append(('pdata-fragment', op_fragments, (k, 150)))
+        ops.append(('pdata-fragment', op_fragments, (k, 40)))
     ops.append(('pdu', op_pdu, (convs.RQ_SPEC,)))
     ops.append(('pdu', op_pdu, (convs.AC_SPEC,)))
     for k, cf in enumerate((0x0001, 0x8020, 0x0020, 0x8021, 0x0130, 0x0110)):
@@ -880,6 +880,65 @@ def shard_baton(ctx, job):
     hyp_search(ctx, strat, fn, job['n'], name='C20-baton', max_buckets=3)
 
 
+def silent_connections_case(n_silent):
+    """Connections on which the peer says nothing (a port probe, a peer that is slow to start) are associations that
+    have not got anywhere yet: while they sit there, every other peer is served as promptly as ever."""
+    import socket
+    import time
+    from pynetdicom2 import applicationentity, sopclass, exceptions
+    case = {'part': 'silent-connections', 'n': n_silent}
+    ae = applicationentity.AE('SRV', 0, None, 16384)
+    ae.add_scp(sopclass.verification_scp)
+    worst = []
+    for attempt in range(3):
+        silent = []
+        try:
+            with lb.quiet_stderr(), lb.serving(ae if attempt == 0 else _fresh_echo_server()) as port:
+                for _ in range(n_silent):
+                    silent.append(socket.create_connection(('127.0.0.1', port), timeout=5))
+                time.sleep(0.2)
+                t0 = time.time()
+                err = None
+                try:
+                    cae = applicationentity.ClientAE('CLI', [svc.IMPLICIT])
+                    cae.timeout = 6
+                    cae.add_scu(sopclass.verification_scu)
+                    with cae.request_association({'aet': 'SRV', 'address': '127.0.0.1', 'port': port}) as assoc:
+                        status = int(assoc.get_scu(svc.VERIFICATION)(1))
+                except Exception as exc:     # noqa
+                    err, status = exc, None
+                took = time.time() - t0
+                for s_ in silent:        # (before the server is closed: it waits for its handler threads)
+                    s_.close()
+        finally:
+            for s_ in silent:
+                try:
+                    s_.close()
+                except Exception:
+                    pass
+        if err is None and status == 0 and took < 3.0:
+            return
+        worst.append((round(took, 1), repr(err), status))
+    # (real time: reported only if it happened three times in a row)
+    raise Violation('%s:loopback:silent-connection-disturbs' % PROP, 'with %d connection(s) open on which the peer has not sent '
+                    'anything yet, an ordinary C-ECHO association to the same entity took / failed (seconds, error, status) %r '
+                    'in three attempts' % (n_silent, worst), case)
+
+
+def _fresh_echo_server():
+    from pynetdicom2 import applicationentity, sopclass
+    ae = applicationentity.AE('SRV', 0, None, 16384)
+    ae.add_scp(sopclass.verification_scp)
+    return ae
+
+
+def shard_silent(ctx, job):
+    warnings.simplefilter('ignore')
+    ctx.case(('silent-connections', job['n']), True, labels=['loopback', 'silent-connections'],
+             sample={'silent connections': job['n']})
+    ctx.check(silent_connections_case, job['n'])
+
+
 def shard_loopback(ctx, job):
     warnings.simplefilter('ignore')
     for n, seed in job['rounds']:
@@ -904,7 +963,7 @@ def run(ctx):
                 'generator) against one server entity over loopback TCP, R rounds with permuted start order; part b: '
                 '2-4 AssociationAcceptor.handle() bodies plus 0-2 associations the same entity requests itself, sharing one AE on scripted providers, interleaved at every '
                 'provider send/receive and inside every application handler by a baton scheduler whose order is Hypothesis-drawn, each compared with the '
-                'same association run alone; _new_msg_id() from concurrent threads; part c: PDU encode/decode, message fragmentation (bytes and file-like), group-length computation and status classification run in 8 threads under a 1 microsecond switch interval and must equal the single-threaded results; part d: one requesting entity with 2-4 associations open at the same time on scripted peers answering with Hypothesis-drawn result codes 0-4: each association proposes all configured classes and uses exactly what its own peer accepted; part e: 2-4 reassemblers (one per association) fed the fragmented messages of their associations in a drawn interleaving, each compared with being fed alone; part f: one long-lived entity on which 300 associations in a row fail in each of 7 ways (unusual sub-item order, request without user information, abort during negotiation, handler exception, refusal, a message no service can take, no acceptable context), an ordinary association after each run must be served; non-trivial = >=2 associations '
+                'same association run alone; _new_msg_id() from concurrent threads; part c: PDU encode/decode, message fragmentation (bytes and file-like), group-length computation and status classification run in 8 threads under a 1 microsecond switch interval and must equal the single-threaded results; part d: one requesting entity with 2-4 associations open at the same time on scripted peers answering with Hypothesis-drawn result codes 0-4: each association proposes all configured classes and uses exactly what its own peer accepted; part e: 2-4 reassemblers (one per association) fed the fragmented messages of their associations in a drawn interleaving, each compared with being fed alone; part f: one long-lived entity on which 300 associations in a row fail in each of 7 ways (unusual sub-item order, request without user information, abort during negotiation, handler exception, refusal, a message no service can take, no acceptable context), an ordinary association after each run must be served; over real TCP, 1 / 3 connections on which the peer stays silent while an ordinary association must be served within 3 s; non-trivial = >=2 associations '
                 'overlapping (>=2 baton switches / >=2 clients)')
     ctx.assumptions = ['part a samples OS schedules; part b enumerates interleavings at primitive granularity only',
                        'server-side calls are attributed to associations through the handler thread (one thread per association)',
@@ -923,6 +982,9 @@ def run(ctx):
     for program in ([(k, 300) for k in FAILURES], [(k, 7) for k in FAILURES] * 8):
         ctx.case(('long-lived', program), True, labels=['long-lived-server'], sample={'program': program[:6]})
         ctx.check(long_lived_server, program)
+    # (in worker processes: handler threads of the silent connections live on until their time-out and would slow
+    #  down everything that follows in this process)
+    parallel(ctx, shard_silent, [{'n': 1}, {'n': 3}], procs=2)
     run_negotiation(ctx, 3000 if ctx.thorough else 200)
     run_decoders(ctx, 4000 if ctx.thorough else 300)
     s = ctx.seed
@@ -945,6 +1007,8 @@ def replay(case):
             print('inconclusive: %s' % inc)
     elif case['part'] == 'thread-stress':
         thread_stress(8, 200)
+    elif case['part'] == 'silent-connections':
+        silent_connections_case(case['n'])
     elif case['part'] == 'long-lived':
         long_lived_server([tuple(p) for p in case['program']])
     elif case['part'] == 'decoders':
